@@ -3,32 +3,35 @@ import AFV.Lemmas.NestUsage
 import AFV.Lemmas.PeakLeaf3
 import AFV.Spec.PeakSingle
 import AFV.Lemmas.NestScale2
+import AFV.Lemmas.PeakAnalytic
 /-!
-# C06 — reported memory usage equals the execution-time peak occupancy  (PARTIAL)
+# C06 — reported memory usage equals the execution-time peak occupancy  (single Einsum: PROVED; fused trees: PARTIAL)
 
 The reference is `FusedPeak.peak` (explicit timeline over the execution of a mapping tree, `AFV/Spec/FusedPeak.lean`).
 
 Proved here
-* about the reference: a residency is live at every instant of its cover (`live_at_cover`), in particular at each of its uses;
-  persistent residencies are live at every instant (`persistent_live_throughout`); the peak dominates the occupancy of every
-  instant (`peak_ge_instant`) and is non-negative (`peak_nonneg`); `fits` is the validity predicate;
-* **single Einsum, timeline side** (`peak_single_timeline`, all well-formed nests): the peak of a memory equals the sum of the
-  sizes of its buffers at their allocation points — the loops above an allocation point are the outermost loops of the nest, so
-  the uses of one residency are contiguous in execution order (`proj_convex`: mixed-radix counting), hence at every instant
-  exactly one residency of every buffer is live (`Nest.live_iff`, `Nest.occupancy_eq`).  This is the reason why run_model may
-  simply add up its Reservation nodes;
-* about the single-Einsum model `analytic` (C05): the oversubscription verdict is exactly "some memory's total reserved bits
-  exceed its size" (`oversubscription_rejected`), reserved bits and usage do not depend on energies, throughputs or
-  n_instances (C19: `scale_energy`, `scale_throughput`, `scale_instances` carry `usageView`).
+* **single Einsum (`peak_single`)**: for every well-formed Toll-free nest with non-negative bit widths, the bits that `analytic`
+  (the model of run_model's reservation accounting, tied to the code by C05) reports for a memory equal the reference peak of that
+  memory for the one-leaf tree.  Three steps, each a theorem for all inputs:
+  - `tracker_allocation_points`: the tracker state machine of `insert_reservation_nodes` allocates the first holder of a tensor where
+    it stands and every other holder below the run of loops indexing the tensor that follows it — exactly the reference's allocation
+    points (`PeakSingle.resBits_insert`, `tracker_alloc`);
+  - `peak_single_timeline`: the loops above an allocation point are the outermost loops of the nest, so the uses of one residency
+    are contiguous in execution order (`uses_contiguous`: mixed-radix counting), hence at every instant exactly one residency of
+    every buffer is live and the peak is the sum of the buffer sizes (`Nest.live_iff`, `Nest.occupancy_eq`);
+  - `memBits_eq_reservations`: the per-tensor analysis records in each buffet the size at its Reservation node and nothing else
+    changes it; run_model adds them up per memory.
+  `peak_single_check` is the same statement for the decidable instance the driver evaluates (`PeakSingleStatement`).
+* about the reference for trees: a residency is live at every instant of its cover (`live_at_cover`, `live_between`); persistent
+  residencies are live at every instant (`persistent_live_throughout`); the peak dominates the occupancy of every instant
+  (`peak_ge_instant`) and is non-negative (`peak_nonneg`); `fits` / `not_fits_iff` is the validity predicate;
+* `oversubscription_rejected`: the verdict of the single-Einsum model is exactly "some memory's reserved bits exceed its size".
 
-NOT proved (covered by the correspondence with `evaluate_mapping` only; the full statements are)
-* the full single-Einsum statement, written down as `PeakSingleStatement : Prop` below (`WF m → Toll-free → analytic's memBits l =
-  peak (leaf m) l`); its instances are evaluated by the driver on generated nests in every run.  The missing half: that the tracker state machine of
-  `insert_reservation_nodes` places every Reservation at the declarative allocation point of the reference (`FusedPeak.lower`), i.e.
-  `memBits l = allocSum (descsOf …) l` (the existing `tracker_placed` shows well-formed placement, not yet maximal lowering);
-  with it `peak_single_timeline` would give `peak_single`;
-* `merge_peak : usage computed by merge_next / free_to_loop_index / adjust_reservations = peak tree` — there is no Lean model of the
-  reservation algebra; every run compares `evaluate_mapping` with `peak` on generated and mapper-returned fused mappings.
+NOT proved (covered by the correspondence with `evaluate_mapping` only)
+* `merge_peak : usage computed by merge_next / free_to_loop_index / adjust_reservations = peak tree` for fused trees of several
+  Einsums — there is no Lean model of the joiner's reservation algebra; every run compares `evaluate_mapping` with `peak` on generated
+  and mapper-returned fused mappings;
+* Tolls in the single-Einsum statement (they hold no data; `FusedPeak` has no Toll nodes).
 -/
 namespace AFV.C06
 open AFV.FusedPeak
@@ -113,13 +116,57 @@ example :
 section Statement
 open AFV.Nest AFV.NestExec AFV.PeakSingle
 
-/-- **The full single-Einsum statement of C06 — NOT proved** (a `def … : Prop`, neither a theorem nor an axiom): for every
-well-formed Toll-free nest the bits reported for every memory (the model of run_model's reservation accounting) equal the
-reference peak.  Open half: the tracker of `insert_reservation_nodes` allocates at `FusedPeak.lower`'s points; the other half
-is `peak_single_timeline`.  The driver evaluates the decidable instance `peakSingleCheck` on generated nests in every run. -/
+/-- bit widths are non-negative (hypothesis of `peak_single`; sizes must not be negative for a maximum to be a sum) -/
+def BitsNonneg (arch : Arch Rat) (wq : Workload Rat) (wn : Workload Nat) : Prop :=
+  ∀ l t, 0 ≤ ((toWorkload arch wq wn).bits.getD l []).getD t 0
+
+theorem bitsNonneg_of_all (arch : Arch Rat) (wq : Workload Rat) (wn : Workload Nat)
+    (h : ((toWorkload arch wq wn).bits.all (fun row => row.all (fun b => decide (0 ≤ b)))) = true) : BitsNonneg arch wq wn := by
+  intro l t
+  simp only [List.all_eq_true, decide_eq_true_eq] at h
+  simp only [List.getD]
+  cases hl : (toWorkload arch wq wn).bits[l]? with
+  | none => simp
+  | some row =>
+    simp only [Option.getD_some]
+    cases ht : row[t]? with
+    | none => simp
+    | some b => simp only [Option.getD_some]; exact h row (List.mem_of_getElem? hl) b (List.mem_of_getElem? ht)
+
+/-- **C06 for one Einsum.** For every well-formed Toll-free nest the bits reported for every memory (the model of run_model's
+reservation accounting) equal the execution-time peak of the reference timeline. -/
+theorem peak_single (arch : Arch Rat) (wq : Workload Rat) (wn : Workload Nat) (m : Mapping Nat)
+    (hwf : WF arch wn m = true) (hc : Compat wq wn) (hnt : noToll m = true) (hb : BitsNonneg arch wq wn) :
+    ∃ r, analytic arch wq (castMapping m) = some r ∧
+      ∀ x ∈ r.memBits, x.2 = peak (toWorkload arch wq wn) (.leaf (toPre 1 m) 0) x.1 :=
+  AFV.PeakSingle.peak_single arch wq wn m hwf hc hnt hb
+
+/-- Step 1: the Reservation nodes that the tracker state machine creates for a memory add up to the sum of the reference's buffer
+sizes at its allocation points. -/
+theorem tracker_allocation_points (arch : Arch Rat) (wq : Workload Rat) (wn : Workload Nat) (m : Mapping Nat) (l : Nat)
+    (hM : M2 wn.tensors.length m) :
+    resBits (szOf (toWorkload arch wq wn)) l wn.bounds (insertReservations wn (splitHolders m))
+      = Nest.allocSum (descsOf (toWorkload arch wq wn) (.leaf (toPre 1 m) 0) 0) l :=
+  tracker_alloc arch wq wn m l hM
+
+/-- Step 3: the bits `analytic` reports for a memory are the sizes of the Reservation nodes of that memory. -/
+theorem memBits_eq_reservations (arch : Arch Rat) (wq : Workload Rat) (wn : Workload Nat) (m : Mapping Nat)
+    (hc : Compat wq wn) (hnt : noToll m = true) (r : Result Rat) (hr : analytic arch wq (castMapping m) = some r) :
+    ∀ x ∈ r.memBits,
+      x.2 = resBits (restrict 0 wn.tensors.length (szOf (toWorkload arch wq wn))) x.1 wn.bounds
+              (insertReservations wn (splitHolders m)) :=
+  AFV.PeakSingle.memBits_eq_reservations arch wq wn m hc hnt r hr
+
+/-- The statement in the decidable form the driver evaluates on generated nests (`{"op":"peaksingle"}`). -/
 def PeakSingleStatement : Prop :=
   ∀ (arch : Arch Rat) (wq : Workload Rat) (wn : Workload Nat) (m : Mapping Nat),
-    WF arch wn m = true → Compat wq wn → noToll m = true → peakSingleCheck arch wq wn m = true
+    WF arch wn m = true → Compat wq wn → noToll m = true → BitsNonneg arch wq wn → peakSingleCheck arch wq wn m = true
+
+theorem peak_single_check : PeakSingleStatement := by
+  intro arch wq wn m hwf hc hnt hb
+  obtain ⟨r, hr, h⟩ := peak_single arch wq wn m hwf hc hnt hb
+  simp only [peakSingleCheck, hr, List.all_eq_true, decide_eq_true_eq]
+  exact h
 
 def exArch2 : Arch Rat :=
   let act : Act Rat := { energy := 1, throughput := 1, bpa := none, vpa := [] }
@@ -137,9 +184,20 @@ def exWq2 : Workload Rat :=
 def exMap2 : Mapping Nat :=
   [.storage 0 [0, 1, 2] true, .loop 0 2, .storage 1 [0, 2] true, .loop 1 1, .storage 1 [1] true, .loop 2 1, .loop 0 1, .compute]
 
-/-- an instance of the statement (hypotheses and conclusion hold) -/
-example : WF exArch2 exWn2 exMap2 = true ∧ noToll exMap2 = true ∧ peakSingleCheck exArch2 exWq2 exWn2 exMap2 = true := by
-  decide +kernel
+/-- non-vacuity: the hypotheses of `peak_single` hold for a concrete nest (and so does its conclusion, by the theorem) -/
+example : WF exArch2 exWn2 exMap2 = true ∧ noToll exMap2 = true := by decide +kernel
+
+theorem exCompat2 : Compat exWq2 exWn2 := by
+  refine ⟨by simp [exWq2, exWn2], rfl, ?_, ?_⟩ <;> intro t <;>
+    (match t with
+     | 0 => rfl
+     | 1 => rfl
+     | 2 => rfl
+     | (n + 3) => rfl)
+
+example : peakSingleCheck exArch2 exWq2 exWn2 exMap2 = true :=
+  peak_single_check exArch2 exWq2 exWn2 exMap2 (by decide +kernel) exCompat2 (by decide +kernel)
+    (bitsNonneg_of_all _ _ _ (by decide +kernel))
 
 end Statement
 
